@@ -885,8 +885,14 @@ impl Formatter {
                 }
             }
             Expr::Closure(params, body) => {
+                // Closure parameters are bare names (their types are inferred); `(x: _) => ..` does not parse
                 self.writer.write("(");
-                self.format_params(params);
+                for (i, param) in params.iter().enumerate() {
+                    if i > 0 {
+                        self.writer.write(", ");
+                    }
+                    self.writer.write(&param.node.name);
+                }
                 self.writer.write(") => ");
                 self.format_expr(&body.node);
             }
